@@ -259,9 +259,10 @@ def _rays_for(rng, spec, Rm, a, nrays, n_in, backward=False, maxang=None):
     Ps, Ss, tags = [], [], []
     kinds = ['axis', 'parax', 'skew', 'nearcrit', 'steep', 'skew', 'parallel', 'parallel']
     dense_to_rare = spec['kind'] in ('refr', 'refract') and n_in > n1
+    zs = np.array([1.0, 1.0, -1.0]) if backward else np.ones(3)     # backward: the ray travels against the local normal (towards -z)
     for i in range(nrays):
         kind = kinds[i % len(kinds)]
-        if kind == 'nearcrit' and not (dense_to_rare and sh[0] != 'plane' and maxang is None):
+        if kind == 'nearcrit' and not (dense_to_rare and sh[0] != 'plane' and maxang is None and not backward):
             kind = 'skew'
         if kind == 'nearcrit':
             Sl = None
@@ -301,7 +302,7 @@ def _rays_for(rng, spec, Rm, a, nrays, n_in, backward=False, maxang=None):
             th = min(th, maxang * (0.2 + 0.8 * rng.uniform()))
         xl, yl = float(xl), float(yl)
         if kind != 'nearcrit':
-            Sl = _unit(th, az)
+            Sl = _unit(th, az) * zs
         if dense_to_rare and kind != 'nearcrit':
             # stay below the critical angle with margin: n sin i <= 0.8 n'
             for _ in range(40):
@@ -311,9 +312,7 @@ def _rays_for(rng, spec, Rm, a, nrays, n_in, backward=False, maxang=None):
                     break
                 th *= 0.6                  # less oblique ...
                 xl, yl = 0.8 * xl, 0.8 * yl  # ... and closer to the vertex, where the surface is less steep
-                Sl = _unit(th, az)
-        if backward:
-            Sl = Sl * np.array([1, 1, -1.0])
+                Sl = _unit(th, az) * zs
         Xl = np.array([xl, yl, _local_sag(sh, xl, yl)])
         Xg = Rm_.T @ Xl + P0
         Sg = Rm_.T @ Sl
@@ -362,7 +361,7 @@ def gen_prescription(rng, idx):
         s1 = {'kind': 'refr', 'P': [0.0, 0.0, z0], 'R': None, 'shape': ('conic', float(rng.uniform(0.2, 0.8) * 0.3 / a * rng.choice([-1, 1])), float(rng.choice(KAPPAS[:4]))), 'n': ng}
         s2 = {'kind': 'refl', 'P': [0.0, 0.0, z0 + 0.5 * a], 'R': [0.0, float(rng.uniform(-2, 2))], 'shape': ('plane',) if rng.integers(0, 2) else ('sphere', float(rng.uniform(-0.2, 0.2) / a))}
         # the exit surface is met travelling towards -z: its frame is turned by 180 deg about y so that the ray runs along local +z
-        s3 = {'kind': 'refr', 'P': [0.0, 0.0, z0 - 0.2 * a], 'R': [0.0, 180.0],
+        s3 = {'kind': 'refr', 'P': [0.0, 0.0, z0 - 0.2 * a], 'R': [0.0, 180.0] if rng.integers(0, 2) else None,
               'shape': ('conic', float(rng.uniform(0.2, 0.8) * 0.3 / a * rng.choice([-1, 1])), float(rng.choice(KAPPAS[:4]))), 'n': n0}
         return {'specs': [s1, s2, s3], 'a': 0.4 * a, 'n0': n0, 'maxang': 0.12}
     if mode in (0, 1, 2, 3):               # single surface
@@ -376,7 +375,8 @@ def gen_prescription(rng, idx):
                 n0, spec['n'] = 1.0, float(rng.choice([1.33, 1.5168, 1.7, 2.4]))
             else:
                 n0, spec['n'] = float(rng.choice([1.5168, 1.7, 2.4])), float(rng.choice([1.0, 1.33]))
-        return {'specs': [spec], 'a': a, 'n0': n0}
+        # every third single surface is met by rays travelling AGAINST its normal (local m < 0), as after a fold mirror
+        return {'specs': [spec], 'a': a, 'n0': n0, 'backward': bool((idx // 8) % 3 == 2)}
     if mode == 4:                           # singlet (+ mirror or evaluation plane)
         n = float(rng.choice([1.5168, 1.7]))
         P1, R1 = _rand_frame(rng, tilted=bool(rng.integers(0, 2)))
@@ -554,7 +554,7 @@ def correspondence(ctx):
             ctx.disagree('trace', {'surfaces': specs}, f'constructor raised {type(ex).__name__}: {ex}', 'surface exists')
             continue
         mats = [None if s.R is None else np.asarray(s.R, dtype=float) for s in surfs]
-        P, S, tags = _rays_for(rng, specs[0], mats[0], pr['a'], nrays, pr['n0'], maxang=pr.get('maxang'))
+        P, S, tags = _rays_for(rng, specs[0], mats[0], pr['a'], nrays, pr['n0'], maxang=pr.get('maxang'), backward=pr.get('backward', False))
         for single in ((False, True) if (idx // 8) % 2 == 0 else (False,)):
             try:
                 P_hist, S_hist, _ = run_impl(specs, P, S, pr['n0'], single=single)
